@@ -9,12 +9,23 @@ C33  spec/PushFrame   grammar of PUB/SUB payload frames (Encode as the Lua scrip
                       VIOLATION (sig decode:<frame type>:<field>).  Strings outside the grammar that the code
                       accepts leniently are counted, not judged.
 C34  spec/RedisKeys   Redis hash-tag rule + key/channel builders of RedisBroker, RedisMapBroker,
-                      RedisPresenceManager in 4 modes; TLC classifies the inputs for which the design is
-                      unsound.  Rows replayed into the real builders (engines built without a connection), slots
-                      by an independent CRC16; the real operations run against a recording rueidis client to get
-                      the actual KEYS of every EVALSHA.  sig = <mode>:<input class> for the classes of the spec
-                      (cluster|sharded|precomp : channel-starts-with-} | prefix-unclosed-brace |
-                      prefix-empty-braces), <mode>:<operation>:UNEXPECTED(<class>) for anything else,
+                      RedisPresenceManager in 4 schemes (plain, cluster, sharded PUB/SUB with numeric /
+                      precomputed tags) + the INVOCATIONS: per operation and variant (broker Publish: history x
+                      delta x idempotency key x version; map Publish: mode x keyed x ordered x idempotency key;
+                      map Remove, ReadState, ReadStream, Stats, Clear, cleanup find / batch-remove per map mode;
+                      presence Add/Remove/Get/Stats) the commands it sends with KEYS by position (placeholders
+                      included, an empty key is a key) and the PUB/SUB channel.  TLC classifies the inputs for
+                      which the design is unsound.  Rows replayed into the real builders (engines built without
+                      a connection), slots by an independent CRC16; EVERY invocation is executed: the real
+                      operation runs against a recording rueidis client (overlay shim), the recorded KEYS /
+                      channel are compared with the spec position by position (difference = drift) and must lie
+                      in one slot (all variants on channels of length <= 1 (quick) / 2 (thorough), one variant
+                      per script on every channel).
+                      sig = <scheme>:<input class> for the classes of the spec (cluster|sharded|precomp :
+                      channel-starts-with-} | prefix-unclosed-brace | prefix-empty-braces);
+                      <scheme>:op:<engine.Operation>:<variant>:key-<i>-other-slot (or channel-other-slot,
+                      rueidis-cross-slot-panic) for a stray key of a real invocation outside those classes;
+                      <scheme>:op:<..>:UNEXPECTED(<class>) for builder-level failures outside the classes;
                       precomp:map.cleanup:registration-key-not-scanned for the cleanup worker's scan key.
 C35  spec/Partition   tag tables DUMPED FROM THE CODE into PartitionData.tla, validated against a bitwise
                       CRC16-XMODEM + even contiguous slot assignment; rows falsifying the property are
@@ -46,6 +57,14 @@ classes listed as known findings, so that the baseline is green; every mutant mu
       different hash; extractChannel trimming one character too many (cluster); presence user-set key without
       braces; map cleanup registration key with the numeric index (inverse of defect (b)); sharded
       extractChannel splitting at the LAST dot; map state-order key outside the partition tag.
+      Seeded change C34-1 (map Remove stops substituting the unused stateMetaKey by the :nil: key, so an
+      ephemeral channel passes KEYS[7]="") was MISSED by the builder-level version (exit 0) -> invocation
+      model + execution of every variant added; now exit 1 with sharded|precomp:op:map.Remove:ephemeral[,idem]:
+      key-7-other-slot (+ rueidis-cross-slot-panic) and nothing else.
+      Also caught by the invocation replay: map Publish without the :nil: substitution of the cleanup
+      registration key (..:op:map.Publish:persistent,keyed:key-8-other-slot, also recoverable unkeyed);
+      broker history publish passing an empty result key without idempotency key
+      (..:op:broker.Publish:history:key-3-other-slot).
   C35 (all caught, exit 1): one precomputed tag altered (ms3 -> ms4: balance of size 16 on 8 masters);
       TagSlot modulo 16383; table of size 32 returned for 64; SlotToNode boundary r*sn instead of r*(sn+1)
       (first run: harness crashed with an index error = exit 2 -> range guard added, now exit 1); a tag
@@ -142,7 +161,8 @@ def c34(c):
     c.log('TLC: %d rows (mode, prefix, lists, channel); every failing operation lies in a named input class and every class fails: %s'
           % (len(rows), json.dumps(classes, sort_keys=True)))
     binp = c.go_build('redisfuncs')
-    res = c.harness(binp, 'keys', {'partitions': 16, 'ops': ops, 'rows': rows, 'capture': True}, timeout=1500)
+    res = c.harness(binp, 'keys', {'partitions': 16, 'ops': ops, 'rows': rows, 'capture': True,
+                                    'full_variants_max_len': 1 if c.tier == 'quick' else 2}, timeout=1500)
     c.absorb(res)
     c.log('replay: %s extra=%s' % (json.dumps(res['counters'], sort_keys=True), json.dumps({k: v for k, v in res['extra'].items()})[:600]))
     c.log('violation signatures from the real code: %s; drifts: %d' % (sorted(v['sig'] for v in res.get('violations') or []), len(res.get('drifts') or [])))
@@ -162,8 +182,9 @@ def c34(c):
     c.assumptions += [
         'the engines are built without a connection: RedisBroker / RedisPresenceManager by their real constructors around a RedisShard value, '
         'RedisMapBroker assembled in the shim from the constructor\'s statements (its constructor starts workers that need the connection)',
-        'per-operation key sets: transcribed in the spec from the call sites AND cross-checked against the commands the real operations build '
-        'on a recording rueidis client (EVALSHA KEYS + the channel argument); the Lua scripts themselves are not executed',
+        'per-invocation KEYS lists (by position, per operation variant): transcribed in the spec from the call sites AND compared with the commands the real '
+        'operations build on a recording rueidis client (EVALSHA KEYS + the channel argument, DEL keys, single-key commands); the Lua scripts themselves are not executed; '
+        'every variant runs on channel names of length <= %d, one variant per script on every channel (which positions are unused does not depend on the name)' % (1 if c.tier == 'quick' else 2),
         'slots by an independent CRC16-XMODEM (bit-serial long division) + hash-tag rule in the harness, self-tested on the vectors of the Redis cluster specification',
         '16 partitions in the sharded modes; the idempotency key is "i"; bounded channel names and prefixes as in spec/RedisKeys/%s' % cfg]
 
@@ -255,7 +276,7 @@ META = {
         design_ref='DESIGN.md 4.4, 8 (C33), 9, 10 item 5'),
     'C34': dict(
         level='model_checking',
-        text='The Redis Cluster hash-tag rule and the key / channel builders of the stream broker, the map broker and the presence manager are transcribed into TLA+ for the four deployment modes (plain, cluster, sharded PUB/SUB with numeric or precomputed partition tags), together with the key set every script call receives. TLC evaluates, for every bounded (mode, prefix, channel), whether all keys of each operation carry the same hash tag and whether extractChannel(messageChannelID(ch)) = ch, and proves that every failure lies in a named input class. Every row is replayed into the real builders (engines constructed without a connection); slots are computed by an independent CRC16 + hash-tag implementation, the real operations are additionally run against a recording rueidis client to obtain the actual KEYS of each EVALSHA.',
+        text='The Redis Cluster hash-tag rule and the key / channel builders of the stream broker, the map broker and the presence manager are transcribed into TLA+ for the four deployment modes (plain, cluster, sharded PUB/SUB with numeric or precomputed partition tags), together with the key set every script call receives. TLC evaluates, for every bounded (mode, prefix, channel), whether all KEYS (by position, placeholders included) and the PUB/SUB channel of every command of every operation variant carry the same hash tag and whether extractChannel(messageChannelID(ch)) = ch, and proves that every failure lies in a named input class. Every row is replayed into the real builders (engines constructed without a connection); slots are computed by an independent CRC16 + hash-tag implementation, every operation variant (broker publish with/without history, delta, idempotency key, version; map publish/remove/read/clear/cleanup in ephemeral, recoverable and persistent mode; presence) is executed against a recording rueidis client and the recorded KEYS and channel of each command must equal the list of the spec position by position and lie in one slot.',
         note='Bounds: channel names up to 3 (quick) / 4 (thorough) characters over { } . a :, six prefixes, 16 partitions. Unsound input classes of the design are reported with signatures mode:operation:class. Trusted: TLC, the dump reader, the harness slot function (self-tested on the Redis specification vectors).',
         technique='TLA+ transcription of key builders and hash-tag rule + TLC exhaustive enumeration; function-table replay into the real builders and command capture on a recording client',
         design_ref='DESIGN.md 4.4, 8 (C34), 10 item 10'),
